@@ -2184,6 +2184,9 @@ void copy_api_from_app(
 
     scs_ptr->max_input_luma_width = config_struct->source_width;
     scs_ptr->max_input_luma_height = config_struct->source_height;
+    // keep the untruncated values for validation (max_input_luma_width/height are 16 bit)
+    scs_ptr->static_config.source_width = config_struct->source_width;
+    scs_ptr->static_config.source_height = config_struct->source_height;
     scs_ptr->frame_rate = ((EbSvtAv1EncConfiguration*)config_struct)->frame_rate;
     // SB Definitions
     scs_ptr->static_config.pred_structure = 2; // Hardcoded(Cleanup)
@@ -2410,16 +2413,20 @@ void copy_api_from_app(
     // Extract frame rate from Numerator and Denominator if not 0
     if (scs_ptr->static_config.frame_rate_numerator != 0 && scs_ptr->static_config.frame_rate_denominator != 0)
         scs_ptr->frame_rate = scs_ptr->static_config.frame_rate = (((scs_ptr->static_config.frame_rate_numerator << 8) / (scs_ptr->static_config.frame_rate_denominator)) << 8);
-    // Get Default Intra Period if not specified
-    if (scs_ptr->static_config.intra_period_length == -2)
-        scs_ptr->intra_period_length = scs_ptr->static_config.intra_period_length = compute_default_intra_period(scs_ptr);
-    else if (scs_ptr->static_config.intra_period_length == -1 && (use_input_stat(scs_ptr) || use_output_stat(scs_ptr) || scs_ptr->lap_enabled))
+    // Derived defaults shift by hierarchical_levels: only meaningful (and only defined) for a valid
+    // value; an invalid one is rejected by verify_settings() right after this function.
+    if (scs_ptr->static_config.hierarchical_levels <= 5) {
+        // Get Default Intra Period if not specified
+        if (scs_ptr->static_config.intra_period_length == -2)
+            scs_ptr->intra_period_length = scs_ptr->static_config.intra_period_length = compute_default_intra_period(scs_ptr);
+        else if (scs_ptr->static_config.intra_period_length == -1 && (use_input_stat(scs_ptr) || use_output_stat(scs_ptr) || scs_ptr->lap_enabled))
 
-        scs_ptr->intra_period_length = (MAX_NUM_GF_INTERVALS-1)* (1 << (scs_ptr->static_config.hierarchical_levels));
-    if (scs_ptr->static_config.look_ahead_distance == (uint32_t)~0)
-        scs_ptr->static_config.look_ahead_distance = compute_default_look_ahead(&scs_ptr->static_config);
-    else
-        scs_ptr->static_config.look_ahead_distance = cap_look_ahead_distance(&scs_ptr->static_config);
+            scs_ptr->intra_period_length = (MAX_NUM_GF_INTERVALS-1)* (1 << (scs_ptr->static_config.hierarchical_levels));
+        if (scs_ptr->static_config.look_ahead_distance == (uint32_t)~0)
+            scs_ptr->static_config.look_ahead_distance = compute_default_look_ahead(&scs_ptr->static_config);
+        else
+            scs_ptr->static_config.look_ahead_distance = cap_look_ahead_distance(&scs_ptr->static_config);
+    }
     if (scs_ptr->static_config.enable_tpl_la &&
         scs_ptr->static_config.look_ahead_distance > (uint32_t)0 &&
         scs_ptr->static_config.look_ahead_distance != (uint32_t)TPL_LAD &&
@@ -2518,7 +2525,7 @@ static EbErrorType verify_settings(
     EbErrorType return_error = EB_ErrorNone;
     EbSvtAv1EncConfiguration *config = &scs_ptr->static_config;
     unsigned int channel_number = config->channel_id;
-    if (config->enc_mode > MAX_ENC_PRESET) {
+    if (config->enc_mode > MAX_ENC_PRESET || config->enc_mode < 0) {
         SVT_LOG("Error instance %u: EncoderMode must be in the range of [0-%d]\n", channel_number + 1, MAX_ENC_PRESET);
         return_error = EB_ErrorBadParameter;
     }
@@ -2554,12 +2561,12 @@ static EbErrorType verify_settings(
         return_error = EB_ErrorBadParameter;
     }
 
-    if (scs_ptr->max_input_luma_width > 4096) {
+    if (scs_ptr->max_input_luma_width > 4096 || config->source_width > 4096) {
         SVT_LOG("Error instance %u: Source Width must be less than 4096\n", channel_number + 1);
         return_error = EB_ErrorBadParameter;
     }
 
-    if (scs_ptr->max_input_luma_height > 2160) {
+    if (scs_ptr->max_input_luma_height > 2160 || config->source_height > 2160) {
         SVT_LOG("Error instance %u: Source Height must be less than 2160\n", channel_number + 1);
         return_error = EB_ErrorBadParameter;
     }
